@@ -3,6 +3,18 @@
 import json, subprocess
 
 CHECKS = {
+ "C05": dict(level="exploration", design="§3 C05", technique="bounded-exhaustive enumeration of (program, ordered fact list) x four materialisation strategies x two runs on the real Reasoner, naive stratified least-fixpoint reference as oracle",
+   text="2 933 programs (thorough 4 027: every canonical 1- and 2-premise rule body, 3-premise bodies, numeric/term filters, one negated atom, recursive / constant / variable-predicate / two-conclusion heads, every ordered pair of a 40-rule core incl. mutually recursive ones) x every fact set of <=2 facts (symmetry-reduced) in every insertion order + curated chains/cycles/diamonds: infer_new_facts_naive, _semi_naive, _semi_naive_parallel and provenance(Boolean) must each leave exactly the least (stratified) model in the store, return only model facts, and derive nothing on a second run.",
+   note="Every failure is tagged with the reference component whose omission reproduces the observed store (explained_by=...), which scopes the known findings narrowly; filter-meets-non-numeric cases where the statement is silent are counted, not judged."),
+ "C06": dict(level="exploration", design="§3 C06", technique="bounded-exhaustive enumeration of (program, certain/tagged fact list, provenance mode) on the real Reasoner, exhaustive possible-worlds summation (2^n worlds) as oracle",
+   text="Core single rules, ordered pairs and 3-4-rule programs (late second proof / delta_improved path, mutual recursion, shared evidence, one negated atom) x fact sets with every assignment of {certain, 0, 0.3, 0.5, 1} to <=4 facts (every insertion order) and larger graphs with up to 8 (thorough 12) uncertain facts: DNF and SDD provenance must equal the possible-worlds probability to 1e-9, MinMax the (max,min) fixpoint, Boolean the derivability from facts with p>0.",
+   note="World enumeration bounds n <= 12; MinMax not judged for programs with negation."),
+ "C08": dict(level="fault_enumeration", design="§3 C08", technique="exhaustive enumeration of lineage formulas x probabilities x configurations x EVERY clock reading at which the deadline can expire (injected HybridClock) and every node budget, on the real hybrid evaluator, truth-table probability as oracle",
+   text="All 127 DNFs over 3 seeds (all 125 probability assignments), 575 (thorough 32 767) DNFs over 4 seeds, nested And/Or, every single-Not variant, exclusive groups, missing seeds, special cases, (thorough: up to 12 seeds) x 240 valid + 7 invalid configurations; a counting HybridClock expires the deadline at every reading n of the fault-free run in two modes (single jump, runaway); compile_lineage_to_sdd_with_clock per reading and node budget; evaluate_topk; Reasoner::infer_new_facts_with_hybrid end to end on 21 programs: Exact equals the truth-table probability, every interval contains it, Alert => p* >= threshold, NoAlert => p* < threshold, never a decision contradicted by p*.",
+   note="Exclusive groups of mass 1 only (semantics of smaller mass is undefined in the code); missing seeds: certified claims must hold for every completion."),
+ "C10": dict(level="model_checking", design="§3 C10", technique="exhaustive enumeration of streams on real single-window RSP engines against a window-content/closure/R2S reference + stateless schedule exploration (baton scheduler, preemption-bounded DFS) of the multi-threaded engine",
+   text="Every in-order stream of <=4 (thorough <=5) items (3-triple alphabet x gaps {0,1,2}) on a real RSPEngine for {RSTREAM, ISTREAM, DSTREAM} x 4 (width,slide) pairs x 6 query/rule configurations: the emitted row sequence must be the concatenation, firing by firing, of the query answers over exactly the probe window's content plus its rule closure, passed through the stream operator. The same streams (<=3 items, thorough <=4) run in OperationMode::MultiThread under the baton scheduler of hook H1: every schedule with <=2 (thorough 3) preemptions must emit the same sequence and must not deadlock.",
+   note="Scheduling points at channel send/receive and around the window processor only; rows inside one firing are compared as a multiset (hash order); stop()'s flush excluded."),
  "C13": dict(level="exploration", design="§3 C13", technique="bounded-exhaustive enumeration of documents around every loader chunk boundary x formats x prior database contents x pool sizes on the real loaders, reference reader as oracle, cross-format equality",
    text="Documents of sizes {0,1,2, 998..1003, 1998..2002, 3001} (thorough more, incl. the 8192 RDF/XML batch boundary) generated from one abstract triple list in N-Triples, N-Quads (+graph column), Turtle, N3 and RDF/XML, with a distinguished line (@prefix used only later, term first seen in the previous chunk, duplicate, lang/datatype/escaped literal, quoted triple, comment, blank line, blank node, '#' in an IRI) at every offset -2..+2 of every chunk boundary, loaded into databases with 5 kinds of prior content under rayon pools of 1/2/4/16 threads; the lexical quad set must equal prior + document, the dictionary must stay a bijection with prior ids unchanged, and all formats must load identically.",
    note="Interleavings inside a rayon pool are not enumerable (pool sizes are; chunk tasks are pure functions merged sequentially - verified by reading); line-oriented subset only; reference reader harness/src/reference/loader.rs."),
@@ -50,7 +62,7 @@ CHECKS = {
 # checks that exist but must not be claimed yet (red on the unchanged tree until a fix/finding lands)
 PENDING = {}
 
-NOT_YET = {
+NOT_YET = {'C11': 'check under construction in this session (multi-window RSP); nothing is claimed for it yet'
 }
 
 def main():
